@@ -29,6 +29,11 @@ Extracted (None = pattern not recognised -> `extraction_failed`):
                           `Ferrous.C13.sweep_covers_scripts_and_rename` (EVAL, EVALSHA, RENAME, RENAMENX must be in both).
   * wake_checks_client    does `wake_client` test that the connection is still Blocked (on that key) BEFORE popping the
                           element, and does the hang-up probe in `process_connections` unregister the vanished client ?
+  * serve_drains          does each round of `serve_key` call `process_wakeups()` under `while …has_pending_wakeups()` (every
+                          queued request is carried out, also the one `wake_client` queues for the next waiter when the head
+                          waiter is stale) rather than once ?
+  * probe_reads_input     does `Connection::peer_closed` (src/network/connection.rs) READ the socket (`stream.read` +
+                          `parser.feed`), so that end-of-file behind unread bytes is seen, rather than `peek` one byte ?
   * exec_atomic           do the LPUSH / RPUSH arms skip the notification when `conn_id == 0` (run by EXEC), is the
                           drain skipped too, and does `handle_exec` call `serve_key` for the pushed keys afterwards ?
 """
@@ -52,7 +57,7 @@ def _arm(text, name):
 def facts(src, strip_comments, fn_body):
     out = {"wake_batch": None, "notify_per_element": None, "wake_at_push": None, "unregister_all": None, "refuse_in_tx": None, "dedup_keys": None,
            "drain_all": None, "notice_blocked_hangup": None, "defer_batch": None, "exec_atomic": None, "serve_after_script": None,
-           "sweep_commands": None, "exec_sweep_commands": None, "wake_checks_client": None}
+           "sweep_commands": None, "exec_sweep_commands": None, "wake_checks_client": None, "serve_drains": None, "probe_reads_input": None}
     bl = strip_comments(src("network/blocking.rs"))
     pw = fn_body(bl, "process_wakeups")
     if pw is not None:
@@ -108,6 +113,19 @@ def facts(src, strip_comments, fn_body):
         looks_first = bool(re.search(r"ConnectionState::Blocked", wc[:first_pop])) and "with_connection" in wc[:first_pop]
         probe_unregs = bool(pcs is not None and re.search(r"peer_closed\s*\(\s*\)", pcs) and re.search(r"unregister_client\s*\(", pcs))
         out["wake_checks_client"] = looks_first and probe_unregs
+    sk = fn_body(sv, "serve_key")
+    if sk is None:
+        out["serve_drains"] = False if he is not None else None       # no serve_key: nothing to drain
+    elif "notify_key_ready" in sk and re.search(r"self\s*\.\s*process_wakeups\s*\(\s*\)", sk):
+        out["serve_drains"] = bool(re.search(r"\bwhile\s+self\s*\.\s*blocking_manager\s*\.\s*has_pending_wakeups\s*\(\s*\)\s*\{[^{}]*?self\s*\.\s*process_wakeups\s*\(\s*\)", sk, re.S))
+    cn = strip_comments(src("network/connection.rs"))
+    pcl = fn_body(cn, "peer_closed")
+    if pcl is None:
+        out["probe_reads_input"] = False if pcs is not None else None   # no probe at all
+    else:
+        reads = bool(re.search(r"stream\s*\.\s*read\s*\(", pcl) and re.search(r"parser\s*\.\s*feed\s*\(", pcl)) or bool(re.search(r"self\s*\.\s*read\s*\(\s*\)", pcl))
+        peeks = bool(re.search(r"\.\s*peek\s*\(", pcl))
+        out["probe_reads_input"] = True if (reads and not peeks) else (False if peeks and not reads else None)
     rf, dd = [], []
     for fn in ("handle_blpop", "handle_brpop"):
         hb = fn_body(sv, fn)
@@ -147,6 +165,8 @@ def generate(src, strip_comments, fn_body, header):
     item("deferBatchWhenBlocked", "Bool", f["defer_batch"], "process_connection keeps the frames behind a blocking pop that blocked (deferred_frames)", "process_connection not recognised")
     item("execAtomic", "Bool", f["exec_atomic"], "queued pushes do not notify (conn_id == 0); handle_exec serves the pushed keys afterwards (serve_key)", "handle_exec not recognised")
     item("wakeChecksClient", "Bool", f["wake_checks_client"], "wake_client checks the connection before popping; the hang-up probe unregisters at once", "wake_client not recognised")
+    item("serveDrains", "Bool", f["serve_drains"], "each round of serve_key calls process_wakeups() under `while has_pending_wakeups()`", "serve_key not recognised")
+    item("probeReadsInput", "Bool", f["probe_reads_input"], "Connection::peer_closed reads the pending input into the parse buffer (sees end-of-file behind unread bytes) instead of peeking one byte", "Connection::peer_closed not recognised")
     for nm, key, doc in (("sweepCommands", "sweep_commands", "commands after which process_normal_command serves the blocked keys of the database"),
                          ("execSweepCommands", "exec_sweep_commands", "queued commands after which handle_exec serves the blocked keys of the database")):
         if f[key] is None:
